@@ -4,7 +4,7 @@
 # baseline tests (/root/.vp/BASELINE.json stable_pass) passed.  Used to confirm fix: commits and
 # seeded mutants; never part of a registered check.
 TREE="$1"; LOG="$2"
-cd "$TREE" && PYTHONPATH="$TREE" /venv/bin/python -m pytest -q -p no:cacheprovider --timeout=900 --continue-on-collection-errors -n 6 --junitxml="$LOG.xml" > "$LOG" 2>&1
+cd "$TREE" && PYTHONPATH="$TREE" /venv/bin/python -m pytest -q -p no:cacheprovider --timeout=900 --continue-on-collection-errors -n 6 --dist loadfile --junitxml="$LOG.xml" > "$LOG" 2>&1
 /venv/bin/python - "$LOG.xml" <<'PY'
 import sys, json, xml.etree.ElementTree as ET
 base=set(json.load(open('/root/.vp/BASELINE.json'))['stable_pass'])
